@@ -1,7 +1,6 @@
 """C01 -- reader indexing = NumPy indexing of the concatenated recording (DESIGN.md §8 C01)."""
 import itertools
 import os
-import shutil
 import tempfile
 
 from .. import coqenc as q
@@ -11,10 +10,10 @@ RULE = ('test recording = n x c matrix with entry (r, j) = r*c + j in the sample
         'exhaustive small scope: every composition of n <= N into parts x every integer in [-n, n) x every '
         'unit-step slice with bounds in {None} u [-n, n] selecting >= 1 row x every non-empty increasing index '
         'list (as list and as ndarray) x 5 column selectors (none, 1:3, ::-1, index list, permutation) on 1-4 '
-        'channels, on flat files (all layouts) and in-memory arrays (single part); the same abstract cases '
+        'channels, integers also as np.int64, on flat files (all layouts) and in-memory arrays (single part); the same abstract cases '
         'sampled on .npy, flat files with header offsets / trailing bytes / other dtypes, and real mtscomp '
         '.cbin files; reader attributes for every layout; then seeded random larger cases (n <= 2000, <= 6 '
-        'files, boundary-biased). Non-trivial = the recording has >= 2 parts or a column selector is present; '
+        'files, boundary-biased, column selectors also arbitrary slices with steps +-1/+-2 and index lists with negative / repeated entries). Non-trivial = the recording has >= 2 parts or a column selector is present; '
         'distinct = distinct abstract input + configuration.')
 EXHAUSTIVE = {'quick': True, 'thorough': True}
 CLAUSES = {
@@ -190,7 +189,7 @@ def _exhaustive(nmax):
         its = items_for(n)
         for sizes in compositions(n):
             for it in its:
-                forms = ('list', 'array') if it[0] == 'list' else ('list',)
+                forms = ('list', 'array') if it[0] in ('list', 'int') else ('list',)
                 for form in forms:
                     k += 1
                     for si in range(5):
@@ -262,6 +261,17 @@ def _rand_item(rng, n, bounds):
     return ['list', l]
 
 
+def _rand_cols(rng, c):
+    """the five selectors of the exhaustive scope, or any other slice / index list NumPy accepts on c channels"""
+    r = rng.random()
+    if r < 0.5:
+        return rng.choice(cols_for(c))
+    if r < 0.75:
+        b = [None] + list(range(-c - 1, c + 2))
+        return ['slice', rng.choice(b), rng.choice(b), rng.choice([None, 1, -1, 2, -2])]
+    return ['list', [rng.randint(-c, c - 1) for _ in range(rng.randint(1, c + 1))]]
+
+
 def _random(rng, count, nmax):
     out = []
     while len(out) < count:
@@ -276,7 +286,7 @@ def _random(rng, count, nmax):
         for s in sizes:
             bounds.append(bounds[-1] + s)
         it = _rand_item(rng, n, bounds)
-        cols = rng.choice(cols_for(c))
+        cols = _rand_cols(rng, c)
         dtype = rng.choice(['int16', 'int32', 'float32', 'float64'])
         backend = 'flat'
         if k == 1:
@@ -329,9 +339,28 @@ def generate(tier, rng):
 
 # ---- implementation side ------------------------------------------------------------------------
 
+_PROC = {}
+
+
 def _tmp():
-    base = os.environ.get('VT_WORK') or tempfile.gettempdir()
-    return tempfile.mkdtemp(prefix='c01_', dir=base)
+    """one scratch directory per worker process (directory creation/removal dominates the run time on a busy
+    machine), a fresh file-name prefix per case; the case's files are unlinked when it is done"""
+    pid = os.getpid()
+    if _PROC.get('pid') != pid:
+        base = os.environ.get('VT_WORK') or tempfile.gettempdir()
+        _PROC.update(pid=pid, dir=tempfile.mkdtemp(prefix='c01_', dir=base), k=0)
+    _PROC['k'] += 1
+    return os.path.join(_PROC['dir'], 'k%d_' % _PROC['k'])
+
+
+def _cleanup(prefix):
+    d, pre = os.path.split(prefix)
+    for name in os.listdir(d):
+        if name.startswith(pre):
+            try:
+                os.unlink(os.path.join(d, name))
+            except OSError:
+                pass
 
 
 def _dtcode(dt):
@@ -361,7 +390,7 @@ def make_reader(d, sizes, c, cfg):
     if be == 'flat':
         paths, o = [], 0
         for j, s in enumerate(sizes):
-            p = Path(d) / ('f%d%s' % (j, cfg.get('ext', '.bin')))
+            p = Path(d + 'f%d%s' % (j, cfg.get('ext', '.bin')))
             with open(p, 'wb') as f:
                 f.write(bytes((37 * k + 11) % 251 for k in range(cfg['offset'])))
                 f.write(A[o:o + s].tobytes())
@@ -375,17 +404,17 @@ def make_reader(d, sizes, c, cfg):
     if be == 'array':
         return get_ephys_reader(A, sample_rate=rate), (lambda: None), info
     if be == 'npy':
-        p = Path(d) / 'a.npy'
+        p = Path(d + 'a.npy')
         np.save(p, A)
         return get_ephys_reader(p, sample_rate=rate), (lambda: None), info
     if be == 'cbin':
         import mtscomp
-        p = Path(d) / 'a.bin'
+        p = Path(d + 'a.bin')
         A.tofile(p)
         # chunk_duration d/10 s at 10 Hz = chunks of d samples
-        mtscomp.compress(p, Path(d) / 'a.cbin', Path(d) / 'a.ch', sample_rate=10., n_channels=c, dtype=dtype,
+        mtscomp.compress(p, Path(d + 'a.cbin'), Path(d + 'a.ch'), sample_rate=10., n_channels=c, dtype=dtype,
                          chunk_duration=cfg['d'] / 10., n_threads=1, check_after_compress=False, quiet=True)
-        r = get_ephys_reader(Path(d) / 'a.cbin')
+        r = get_ephys_reader(Path(d + 'a.cbin'))
         return r, r.reader.close, info
     raise ValueError(be)
 
@@ -393,7 +422,7 @@ def make_reader(d, sizes, c, cfg):
 def py_item(it, form):
     import numpy as np
     if it[0] == 'int':
-        return it[1]
+        return np.int64(it[1]) if form == 'array' else it[1]       # isinstance(item, (int, np.generic))
     if it[0] == 'slice':
         return slice(it[1], it[2], it[3])
     return np.array(it[1], dtype=np.int64) if form == 'array' else list(it[1])
@@ -450,7 +479,7 @@ def run_case(case):
         except Exception:
             pass
         del r
-        shutil.rmtree(d, ignore_errors=True)
+        _cleanup(d)
 
 
 def expected(case):
@@ -542,9 +571,12 @@ def dist(case, obs):
         out.append('crash=' + obs[1])
     if case['kind'] == 'get':
         it = i['item']
-        out.append('item=' + (it[0] if it[0] != 'list' else cfg['as']))
+        out.append('item=' + ({'list': 'list', 'array': 'ndarray'}[cfg['as']] if it[0] == 'list' else
+                              'np.int64' if it[0] == 'int' and cfg['as'] == 'array' else it[0]))
         cols = i['cols']
-        out.append('cols=' + ('none' if cols is None else 'slice' if cols[0] == 'slice' else 'list'))
+        out.append('cols=' + ('none' if cols is None else
+                              ('slice-negative-step' if (cols[3] or 1) < 0 else 'slice') if cols[0] == 'slice'
+                              else ('ndarray' if cfg['as'] == 'array' else 'list')))
         if it[0] == 'slice':
             bounds, s = {0}, 0
             for x in i['sizes']:
